@@ -196,3 +196,67 @@ func HarnessVerifyWorkable() {
 		vNote("C18: a non-positive default_max_age is accepted (entries expire at once; the proxy still runs) - not judged")
 	}
 }
+
+// HarnessUpdateSequence: two update documents one after the other (the first possibly
+// rejected half-way).  After an ACCEPTED second document every setting it addressed reads the
+// value that document submitted and every other setting is as it was before that document.
+func HarnessUpdateSequence() {
+	cfg := NewDefault()
+	vFSPutFile("var/config.json", "old!")
+	vOverride("reservoir/config.checkIsSetRecursive", func(reflect.Value) error { return nil })
+	type sub struct {
+		which int
+		size  bytesize.ByteSize
+		shard int
+	}
+	var doc []sub
+	vOverride("reservoir/config.setPropsFromMapRecursive", func(val reflect.Value, updates map[string]any) ([]stagedProp, error) {
+		var staged []stagedProp
+		for i, d := range doc {
+			if d.which < 0 {
+				_ = i
+				return nil, ErrUpdateFailed // ill-typed value: earlier keys of this document were staged
+			}
+			switch d.which {
+			case uMaxCacheSize:
+				cfg.Cache.MaxCacheSize.Stage(d.size)
+				staged = append(staged, &cfg.Cache.MaxCacheSize)
+			case uLockShards:
+				cfg.Cache.LockShards.Stage(d.shard)
+				staged = append(staged, &cfg.Cache.LockShards)
+			}
+		}
+		return staged, nil
+	})
+	// document 1: max_cache_size := s1, then (maybe) an ill-typed key
+	s1 := bytesize.ByteSize(symInt64())
+	vAssume(s1 > 0)
+	doc = []sub{{which: uMaxCacheSize, size: s1}}
+	if symChoice(2) == 1 {
+		doc = append(doc, sub{which: -1})
+		vReach("first-document-rejected")
+	}
+	UpdatePartialFromConfig(cfg, map[string]any{"x": 1})
+	vRunPending()
+	before := snap(cfg)
+	// document 2: max_cache_size := s2 (possibly the value it already has), shards := n
+	s2 := bytesize.ByteSize(symInt64())
+	vAssume(s2 > 0)
+	if symChoice(2) == 1 {
+		s2 = before.max // re-submitting the current value
+		vReach("resubmits-current-value")
+	}
+	n := symInt()
+	vAssume(n >= 1)
+	doc = []sub{{which: uMaxCacheSize, size: s2}, {which: uLockShards, shard: n}}
+	status, err := UpdatePartialFromConfig(cfg, map[string]any{"x": 1})
+	vRunPending()
+	if err != nil || status == UpdateStatusFailed {
+		return
+	}
+	after := snap(cfg)
+	vReach("second-document-accepted")
+	vAssert(after.max == s2 && after.shards == n, "c18.accepted-update-does-not-set-the-submitted-values")
+	vAssert(after.interval == before.interval && after.budget == before.budget && after.maxAge == before.maxAge && after.listen == before.listen,
+		"c18.accepted-update-changed-settings-it-did-not-address")
+}
